@@ -243,7 +243,7 @@ func init() {
 				{"GET", "/api/config/restart-required"}, {"GET", "/api/log"}, {"GET", "/api/metrics"}, {"GET", "/api/metrics/cache"},
 				{"GET", "/api/metrics/requests"}, {"GET", "/api/metrics/system"}, {"GET", "/api/version"}}
 			methods := []string{"GET", "POST", "PATCH", "PUT", "DELETE", "HEAD", "OPTIONS"}
-			origins := []string{"-", "-", "-", "https://evil.example", "http://localhost:8080"}
+			origins := []string{"-", "-", "-", "https://evil.example", "http://localhost:8080", "null"}
 			sites := []string{"-", "-", "same-origin", "same-site", "cross-site", "none"}
 			itoa := strconv.Itoa
 			// every registered route x cookie class without any session
